@@ -182,7 +182,14 @@ def run(ctx):
         for s in range(rng.randint(1, 10)):
             before = list(shx.atoms.all_atoms)
             try:
-                name = h.step()
+                if s == 0 and foreign and rng.random() < 0.7:
+                    # the scripted case: the atom on the last line of the include file goes first
+                    h.force_last_hidden = True
+                    name = h.step('delete_atom')
+                    scripted = True
+                else:
+                    name = h.step()
+                    scripted = False
             except Exception as e:
                 common.add_violation(ctx, 'an edit through the public API raises', {'text': text, 'history': h.log}, 'no exception', '%s: %s' % (type(e).__name__, e))
                 ok = False
@@ -197,7 +204,7 @@ def run(ctx):
                     ok = False
                     break
                 deleted += gone
-            if not check_state(ctx, shx, {'text': text, 'history': h.log}, deleted, names_too=rng.random() < 0.5, foreign=foreign):
+            if not check_state(ctx, shx, {'text': text, 'history': h.log}, deleted, names_too=scripted or rng.random() < 0.5, foreign=foreign):
                 ok = False
                 break
         if ok and not check_state(ctx, shx, {'text': text, 'history': h.log}, deleted, foreign=foreign):
